@@ -148,9 +148,10 @@ Definition get_pstr (buf : bytes) (off : nat) : outcome (bytes * nat) :=
   if Nat.ltb (length buf) off then Panic site_getPrefixed
   else if Nat.ltb (length buf - off) 4 then Err EShortBuffer
   else
-    let n := N.to_nat (unle (sub buf off 4)) in
-    if Nat.ltb (length buf - (off + 4)) n then Err EShortBuffer
-    else Ok (sub buf (off + 4) n, (off + 4 + n)%nat).
+    (* compare in N first: a hostile 32-bit length must never become a unary number *)
+    let nN := unle (sub buf off 4) in
+    if N.of_nat (length buf - (off + 4)) <? nN then Err EShortBuffer
+    else let n := N.to_nat nN in Ok (sub buf (off + 4) n, (off + 4 + n)%nat).
 
 (* getPrefixedMap: loop `for uint32(offset+inset) < uint32(offset)+maplen` with uint32
    wrap-around, keys/values read relative to data[offset:] *)
@@ -298,7 +299,7 @@ Definition parse_statistics (buf : bytes) : outcome statistics :=
   let* (st, o) := get_u64 buf o in
   let* (en, o) := get_u64 buf o in
   let* (cl, o) := get_u32 buf o in
-  if Nat.ltb (length buf) (o + N.to_nat cl) then Err EShortBuffer else
+  if N.of_nat (length buf) <? N.of_nat o + cl then Err EShortBuffer else
   let* cnt := parse_counts_loop (S (length buf)) buf o (o + N.to_nat cl) [] in
   Ok {| st_messages := mc; st_schemas := sc; st_channels := cc; st_attachments := ac;
         st_metadata := mdc; st_chunks := kc; st_start := st; st_end := en; st_counts := cnt |}.
